@@ -199,7 +199,48 @@ def linearise(rng, roots, kids, mode):
 DEPTH_OK = 257      # OUTLINE_DEPTH_LIMIT + 1 (src/outlines.rs): highest forest get_outlines reads back
 
 
-def gen_bookmark_case(rng, kind, tier, deep_n=None):
+WIDE_STYLES = ('each1', 'mixed', 'spread', 'spread-chain')
+
+
+def wide_forest(rng, style, P):
+    """shallow forests with MANY parent items on one sibling list (nesting depth 2..4, far below the First-nesting limit;
+    what is large is the number of items that have children):
+      each1        P chapters, one section each
+      mixed        P chapters with 1..3 sections each, childless chapters sprinkled between them
+      spread       P chapters with one section each, and P // 2 sections with one subsection each under the LAST chapter
+      spread-chain as spread, and P // 4 subsections with one paragraph each under the last section (depth 4)
+    returns roots, kids (sibling order = list order)"""
+    kids = []
+    def node():
+        kids.append([])
+        return len(kids) - 1
+    def level(parent_list, count, fan):
+        made = []
+        for _ in range(count):
+            k = node()
+            parent_list.append(k)
+            for _ in range(fan()):
+                kids[k].append(node())
+            made.append(k)
+        return made
+    roots = []
+    if style == 'each1':
+        level(roots, P, lambda: 1)
+    elif style == 'mixed':
+        for _ in range(P):
+            while rng.random() < 0.3:
+                roots.append(node())                       # a leaf chapter
+            level(roots, 1, lambda: rng.choice([1, 1, 2, 3]))
+    else:
+        chapters = level(roots, P, lambda: 1)
+        last = chapters[-1]
+        sections = level(kids[last], P // 2, lambda: 1)
+        if style == 'spread-chain':
+            level(kids[sections[-1]], P // 4, lambda: 1)
+    return roots, kids
+
+
+def gen_bookmark_case(rng, kind, tier, deep_n=None, wide=None):
     big = tier != 'quick'
     npages = rng.choice([1, 1, 2, 3, 5, 8] + ([20, 40] if big else []))
     objects, trailer, max_id, pages, cat, spare, cat_entries = gen_doc(rng, npages, sparse=rng.random() < 0.4)
@@ -217,6 +258,11 @@ def gen_bookmark_case(rng, kind, tier, deep_n=None):
         for ks in kids:
             rng.shuffle(ks)
         titles = [[0x41 + k % 26, 0x100 + k] for k in range(n)]
+    elif kind == 'widepar':
+        roots, kids = wide_forest(rng, wide[0], wide[1])
+        n = len(kids)
+        # short distinct titles, ASCII (stored as they are) and non-ASCII (stored as UTF-16BE) alternating
+        titles = [[0x43] + [ord(c) for c in str(k)] if k % 3 else [0x41 + k % 26, 0x100 + k] for k in range(n)]
     else:
         roots, kids = gen_forest(rng, n, shape)
         titles = distinct_titles(rng, n)
@@ -225,7 +271,7 @@ def gen_bookmark_case(rng, kind, tier, deep_n=None):
     reload = 1
     wf = True
     # zero-page parents (fixed up by adjust_zero_pages): only nodes with children
-    if kind in ('zero', 'noadjust'):
+    if kind in ('zero', 'noadjust') or (kind == 'widepar' and len(wide) > 2 and wide[2]):
         for k in range(n):
             if kids[k] and rng.random() < 0.6:
                 page_of[k] = (0, 0)
@@ -244,7 +290,8 @@ def gen_bookmark_case(rng, kind, tier, deep_n=None):
             pass  # becomes a zero-page parent, fixed up
         else:
             wf = False
-    order = linearise(rng, roots, kids, rng.choice(['preorder', 'bfs', 'random', 'random', 'random']))
+    order = linearise(rng, roots, kids, rng.choice(['preorder', 'bfs', 'random', 'random', 'random'] if kind != 'widepar' else
+                                                   ['preorder', 'bfs', 'random']))
     idof = {}
     ops = []
     parent = {}
@@ -310,6 +357,8 @@ def gen_bookmark_case(rng, kind, tier, deep_n=None):
                         OID(*p), 'none' if par is None else str(par)) for (t, p, par) in ops])
     exp = L('wf', *[L('row', str(l), T(t), str(pnum[p])) for (l, t, p) in rows]) if wf else L('mal')
     case = L('case', doc, opsx, L('flags', str(adjust), str(reload)), exp)
+    if kind == 'widepar':
+        return case, {'kind': 'wf-widepar-' + wide[0], 'nontrivial': True, 'parents': wide[1], 'bookmarks': n}
     if kind == 'deep':
         return case, {'kind': 'wf-deep-ok' if deep_n <= DEPTH_OK else 'wf-deep-known', 'nontrivial': True}
     return case, {'kind': ('wf-' if wf else 'mal-') + kind, 'nontrivial': n >= 2}
@@ -450,6 +499,18 @@ def gen_cases(rng, tier):
     objects, trailer, max_id, pages, cat, spare, _ = gen_doc(rng, 2)
     cases.append((L('case', DOC('1.5', b'', trailer, objects, max_id), L('ops'), L('flags', '1', '1'), L('mal')),
                   {'kind': 'mal-empty', 'nontrivial': False}))
+    # wide, SHALLOW forests (drawn last: the cases above stay what they were): more items WITH CHILDREN on one sibling list
+    # than OUTLINE_DEPTH_LIMIT, nesting depth 2..4 -- the depth test of get_outlines must count nesting, not parents met
+    lim = DEPTH_OK - 1
+    wides = [('each1', lim - 1), ('each1', lim), ('each1', lim + 1), ('each1', lim + 2), ('each1', 260), ('each1', 300),
+             ('each1', 600), ('mixed', rng.randint(260, 400)), ('mixed', rng.randint(400, 600)),
+             ('spread', 200), ('spread', lim), ('spread-chain', 200), ('each1', rng.randint(260, 600), True),
+             ('spread', rng.randint(150, 250), True)]
+    if tier != 'quick':
+        wides += [(rng.choice(WIDE_STYLES), rng.randint(100, 700), rng.random() < 0.2) for _ in range(120)]
+        wides += [('each1', 2000), ('mixed', 1500), ('spread', 1000), ('spread-chain', 1000)]
+    for w in wides:
+        cases.append(gen_bookmark_case(rng, 'widepar', tier, wide=w))
     return cases
 
 
@@ -491,7 +552,9 @@ SPEC = {
             'parent-before-child interleaving, distinct titles over ASCII (incl. PDF string specials), Latin, BMP (incl. U+FEFF, '
             'U+2828) and astral characters, any page of generated page trees with 1..40 pages, zero-page parents fixed by '
             'adjust_zero_pages, orphans; malformed stream: duplicate titles, non-page targets, no adjust, stale max_id, broken '
-            'Root, chains of height 256/257 (read back) and 258+ (known finding), plus hand-built outlines exercising every branch of the '
+            'Root, chains of height 256/257 (read back) and 258+ (known finding), wide shallow forests (255..600 chapters that each have '
+            'sections on ONE sibling list, 200 chapters + 100 sections with subsections under the last, depth 2..4, 500..1200 bookmarks, '
+            'some with zero-page parents; in memory and after save_to + load_mem), plus hand-built outlines exercising every branch of the '
             'reader incl. cyclic First/Next links (reference budget / depth limit); non-trivial = at least 2 bookmarks or a '
             'hand-built outline; distinct = distinct case text',
     'extra_trusted': [
